@@ -281,7 +281,12 @@ def rebase_note_lines_beyond_file(trace, viol):
     if viol.get("class") != "line_beyond_file":
         return False
     av = _step_argv(trace, viol)
-    return av[:1] in (["rebase"], ["cherry-pick"]) and "--abort" not in av
+    if not (av[:1] in (["rebase"], ["cherry-pick"]) and "--abort" not in av):
+        return False
+    # the listed class: the commit did not itself change the file (it carries the file's state
+    # from the original head), or a conflicted region was resolved away
+    resolved = _index_of(trace, lambda o: o.get("op") == "resolve") is not None
+    return resolved or not (viol.get("detail") or {}).get("commit_touches_offending_path", False)
 
 
 @predicate("hooks_stash_apply")
